@@ -925,6 +925,14 @@ func (vc *VC) assignPats(env *Env, cs []*Clause) []modPat {
 				continue
 			}
 		}
+		if call, isCall := c.Expr.(*SCall); isCall && call.Fun == "allmaps" && len(call.Args) == 1 {
+			// allmaps(m): every map of m's type (type-level frame)
+			mv := vc.evalSpec(env, call.Args[0])
+			if _, isMap := mv.Typ.Underlying().(*types.Map); isMap {
+				pats = append(pats, vc.mapModPats(mv.Typ)...)
+				continue
+			}
+		}
 		if call, isCall := c.Expr.(*SCall); isCall && call.Fun == "allfields" && len(call.Args) == 1 {
 			// allfields(T): every field of every T in memory (type-level frame)
 			var tn string
